@@ -233,3 +233,22 @@ Proof.
   all: first [injection H as <- <- | injection H as <- <- <-]; unfold registered, dkq; cbn; intros X Y; auto; try congruence.
   all: try (destruct q; cbn; auto; fail).
 Qed.
+
+(* ------------------------------------------------------------------ the model's program points are the source's atomic sites *)
+Lemma sites_match_invoke2 : model_sites_invoke2 = f_dispatch_source_invoke2_sites.
+Proof. reflexivity. Qed.
+Lemma sites_match_wakeup : model_sites_wakeup = f_dispatch_source_wakeup_sites.
+Proof. reflexivity. Qed.
+Lemma sites_match_cancel : model_sites_cancel = dispatch_source_cancel_sites.
+Proof. reflexivity. Qed.
+Lemma sites_match_caw : model_sites_caw = dispatch_source_cancel_and_wait_sites.
+Proof. reflexivity. Qed.
+Lemma sites_match_finalize : rmwF = f_dispatch_source_refs_finalize_unregistration_sites.
+Proof. reflexivity. Qed.
+Lemma sites_match_unregister : unreg_sites = f_dispatch_source_refs_unregister_sites.
+Proof. reflexivity. Qed.
+(* the program points at which invoke2 touches dq_atomic_flags before anything else: OA1 only when the registration failed (the
+   finalize loop), the others unconditionally (SrcLifeR.reads_f) *)
+Lemma flags_reading_points :
+  filter starts_with_flags_read invoke2_points = [OA1; OP1; OP2; OP3b; OP4b].
+Proof. reflexivity. Qed.
